@@ -145,6 +145,9 @@ func (w *world) startQuery() bool {
 				panic("boom")
 			case "panic-err":
 				panic(res.ErrInvalidQuery)
+			case "panic-nil":
+				var v interface{}
+				panic(v)
 			case "twice":
 				qr.NotFound()
 				qr.NotFound()
@@ -268,7 +271,7 @@ func replayBehaviour(seed int64, steps []sched.Step, src string) rec {
 	return w.record(ids, false, true, src)
 }
 
-var behaviours = []string{"", "collection", "events", "error", "notfound", "panic", "panic-err", "twice", "reply-panic", "events2", "events-notfound", "events-collection", "events-panic", "", "events"}
+var behaviours = []string{"", "collection", "events", "error", "notfound", "panic", "panic-err", "twice", "reply-panic", "events2", "events-notfound", "events-collection", "events-panic", "panic-nil", "", "events"}
 
 // replyKind abstracts a query response: events:<n> | collection | model | error:<code> | malformed
 func replyKind(data []byte) string {
